@@ -22,6 +22,7 @@
 -/
 import SA.Model.Queue
 import SA.Model.DnsExchange
+import SA.Model.PollGiveUp
 namespace SA.DnsWrites
 open SA.Queue
 
@@ -315,16 +316,34 @@ def handle (toks : List String) : String := handleWith Facts.gen toks
   `H`: the path heals and the loop turns until nothing is outstanding (`tail`, i.e. `poll` + the Writes it
   releases).  While the path is down the loop's turns change nothing that is printed (they fail, or — answer
   lost — repeat what the Write's own attempts already delivered), so they are not run; reads are not looked
-  at then.  The poll tokens are not printed: how often the real loop fired is a matter of timing. -/
+  at then.  The poll tokens are not printed: how often the real loop fired is a matter of timing.
+  `P<k>` (during an outage): the loop makes `k` more turns, each failing with a new error value of the outage's cause; the
+  loop's give-up bookkeeping (SA.PollGiveUp, regenerated rule) is run over them, also over the one turn an `L` waits for and
+  the successful turn after an `H`; when it closes the connection the history ends: result `CLOSED`. -/
 
 inductive PEv
   | ev (e : WEv)
   | L (kind : XF)
   | H
+  /-- the outage goes on for `k` more turns of the loop (each fails; only the loop is sending) -/
+  | P (k : Nat)
   deriving Repr
+
+/-- what failed, by kind of outage: query / answer lost = the same network time-out, the sentinel time-out, another error -/
+def causeOf : XF → Nat
+  | .ok => 0 | .ql => 1 | .al => 1 | .st => 2 | .er => 3
+
+def parsePTurns (t : String) : Option Nat :=
+  match t.toList with
+  | 'P' :: d :: ds =>
+    match parseNum (String.ofList (d :: ds)) with
+    | some k => if 1 ≤ k ∧ k ≤ 60 then some k else none
+    | none => none
+  | _ => none
 
 def parsePEv (t : String) : Option PEv :=
   if t = "H" then some .H
+  else if (parsePTurns t).isSome then (parsePTurns t).map .P
   else if t = "Lq" then some (.L .ql) else if t = "La" then some (.L .al)
   else if t = "Ls" then some (.L .st) else if t = "Le" then some (.L .er)
   else match parseEv t with
@@ -339,6 +358,11 @@ structure PSt where
   lossy : Bool := false
   hang : Bool := false
   toks : List String := []   -- newest first
+  /-- bookkeeping of the loop's give-up rule (SA.PollGiveUp) and the next fresh error identity -/
+  loop : SA.PollGiveUp.LoopSt := {}
+  nid : Nat := 0
+  /-- the loop has closed the connection by itself -/
+  closed : Bool := false
 
 section pollmodel
 variable (f : Facts) (mtu : Nat)
@@ -352,11 +376,24 @@ def rest (s : St) : St × String × Bool :=
   let ts := s1.tr.reverse.filter (fun t => t.startsWith "+")
   (s1, String.join (ts.filter (fun t => t.startsWith "+w") ++ ts.filter (fun t => t.startsWith "+W")), outstanding s1)
 
+-- the loop's give-up rule (regenerated: SA.PollGiveUp.Rule.gen)
+variable (g : SA.PollGiveUp.Rule)
+
 def stepP (p : PSt) : PEv → PSt
-  | .L kind => { p with st := { p.st with core := { p.st.core with dflt := kind } }, lossy := true, toks := "L" :: p.toks }
+  | .L kind =>
+    -- the component waits until the loop has met the new outage once: one failing turn
+    let l := SA.PollGiveUp.run g p.loop (SA.PollGiveUp.outage p.nid (causeOf kind) 1)
+    { p with st := { p.st with core := { p.st.core with dflt := kind } }, lossy := true, toks := "L" :: p.toks,
+             loop := l, nid := p.nid + 1, closed := l.closed }
   | .H =>
     let r := rest f mtu { p.st with core := { p.st.core with dflt := .ok } }
-    { p with st := r.1, lossy := false, hang := p.hang || r.2.2, toks := ("H" ++ r.2.1) :: p.toks }
+    { p with st := r.1, lossy := false, hang := p.hang || r.2.2, toks := ("H" ++ r.2.1) :: p.toks,
+             loop := SA.PollGiveUp.turn g p.loop .ok }
+  | .P k =>
+    if p.lossy then
+      let l := SA.PollGiveUp.run g p.loop (SA.PollGiveUp.outage p.nid (causeOf p.st.core.dflt) k)
+      { p with loop := l, nid := p.nid + k, closed := l.closed, toks := "P" :: p.toks }
+    else { p with toks := "P-" :: p.toks }
   | .ev e =>
     match e, p.lossy with
     | .r _, true => { p with toks := "r-" :: p.toks }
@@ -371,7 +408,7 @@ def stepP (p : PSt) : PEv → PSt
 
 def runP (p : PSt) : List PEv → PSt
   | [] => p
-  | e :: es => if p.hang then p else runP (stepP f mtu p e) es
+  | e :: es => if p.hang || p.closed then p else runP (stepP f mtu g p e) es
 
 end pollmodel
 
@@ -383,9 +420,10 @@ def handlePollWith (f : Facts) (toks : List String) : String :=
       if mtu = 0 ∨ mtu > 100 then "bad-op" else
       match rest.mapM parsePEv with
       | some evs =>
-        let p1 := runP f mtu { st := start 0 0 [] } evs
+        let p1 := runP f mtu SA.PollGiveUp.Rule.gen { st := start 0 0 [] } evs
         if p1.hang then "HANG" else
-        let p2 := stepP f mtu p1 .H
+        if p1.closed then "CLOSED" else
+        let p2 := stepP f mtu SA.PollGiveUp.Rule.gen p1 .H
         if p2.hang then "HANG" else
         let z := p2.st.core.sys
         let ts := match p2.toks with
